@@ -88,6 +88,55 @@ def run(R, replay=None):
             if not url.startswith(base + "blacklists/blacklist_") or "#" not in url:
                 R.violations.append({"what": "blacklist rule %s has no documentation URL of the documented form" % b["id"], "input": {"id": b["id"]},
                                      "observed": url, "signature": None})
+    # ---- the link each report record carries is the link of that record's own rule (several blacklist rules in one report)
+    d_ = os.path.join(impl.scratch(), "c18u")
+    os.makedirs(d_, exist_ok=True)
+    src_ = ("import telnetlib\nimport pickle\nimport subprocess\nimport xml.sax\npickle.loads(x)\neval(y)\nimport hashlib\nhashlib.md5(z)\n"
+            "from pysnmp.hlapi import CommunityData\nCommunityData('public', mpModel=0)\nassert x\n")
+    f_ = os.path.join(d_, "links.py")
+    open(f_, "w").write(src_)
+    import reports as _reports
+    import xml.etree.ElementTree as _ET
+    for fmt in ("json", "yaml", "xml", "sarif"):
+        out_ = os.path.join(d_, "r.out")
+        r_ = climain.run_main(["-q", "-f", fmt, "-o", out_, f_])
+        R.case(("links", fmt), sample={"format": fmt, "exit": r_["exit"]})
+        R.count("report-links")
+        if r_["exception"]:
+            R.violations.append({"what": "format %s: no report (%s)" % (fmt, r_["exception"]), "input": {"src": src_}, "observed": "", "signature": None})
+            continue
+        text_ = open(out_, encoding="utf-8").read()
+        pairs = []
+        if fmt == "json":
+            pairs = [(x["test_id"], x.get("more_info")) for x in json.loads(text_)["results"]]
+        elif fmt == "yaml":
+            import yaml as _yaml
+            pairs = [(x["test_id"], x.get("more_info")) for x in _yaml.safe_load(text_)["results"]]
+        elif fmt == "xml":
+            for tc in _ET.fromstring(text_).iter("testcase"):
+                err = tc.find("error")
+                if err is not None:
+                    pairs.append((err.get("test_id") or err.get("type") or tc.get("name"), err.get("more_info")))
+        elif fmt == "sarif":
+            j_ = json.loads(text_)
+            rules_ = {ru["id"]: ru.get("helpUri") for ru in j_["runs"][0]["tool"]["driver"].get("rules", [])}
+            pairs = [(res["ruleId"], rules_.get(res["ruleId"])) for res in j_["runs"][0]["results"]]
+        for tid, url in pairs:
+            if tid and tid.startswith("B") and url != docs_utils.get_url(tid):
+                R.violations.append({"what": "format %s: the record of %s carries the link %s, its rule's documentation is %s" % (fmt, tid, url, docs_utils.get_url(tid)),
+                                     "input": {"src": src_, "format": fmt}, "observed": pairs[:8], "signature": None})
+                break
+        if len(pairs) < 8:
+            R.violations.append({"what": "format %s: expected at least 8 records with links, found %d" % (fmt, len(pairs)), "input": {"src": src_}, "observed": pairs, "signature": None})
+    # ---- name lookups do not depend on what the parser has seen before (free text after a nosec, other capitalisations)
+    for noise in ("# nosec B311 Random numbers only for jitter", "# nosec b311 Pickle Eval MD5 Assert_Used", "# nosec IMPORT_TELNETLIB EXEC_USED"):
+        bman._parse_nosec_comment(noise)
+    for i, n in rows:
+        for tok in (i, n):
+            got_ = bman._parse_nosec_comment("# nosec " + tok)
+            if got_ is None or set(got_) != {i}:
+                R.violations.append({"what": "after comments with free text / other capitalisations were parsed, '# nosec %s' resolves to %s instead of {%s}" % (
+                    tok, None if got_ is None else sorted(got_), i), "input": {"token": tok}, "observed": None if got_ is None else sorted(got_), "signature": None})
     ids = [i for i, _ in rows]
     names = [n for _, n in rows]
     for what, seq in (("ID", ids), ("name", names)):
